@@ -210,3 +210,10 @@ SUBFUNCTION_TABLES = {
         "reportDTCInformationByDTCReadinessGroupIdentifier": 0x56,
     },
 }
+
+
+# Value sets a decoding enum must cover completely: a reply carrying a defined value that the enum does not list is refused as malformed.
+# DTCFormatIdentifier (ISO 14229-1:2013 / 2020, annex D): 0x00 SAE_J2012-DA_DTCFormat_00, 0x01 ISO_14229-1_DTCFormat, 0x02 SAE_J1939-73_DTCFormat,
+# 0x03 ISO_11992-4_DTCFormat, 0x04 SAE_J2012-DA_DTCFormat_04.
+VALUE_COVERAGE = {"DTCFormatIdentifier": {0x00: "SAE_J2012-DA_DTCFormat_00", 0x01: "ISO_14229-1_DTCFormat", 0x02: "SAE_J1939-73_DTCFormat", 0x03: "ISO_11992-4_DTCFormat",
+                                          0x04: "SAE_J2012-DA_DTCFormat_04"}}
